@@ -381,8 +381,8 @@ def effective_keywords(call: ast.Call, defs: dict[str, list[ast.AST]] | None = N
     for k in call.keywords:
         if k.arg is not None:
             out[k.arg] = k.value
-        elif defs is not None and isinstance(k.value, ast.Name) and k.value.id in defs and len(defs[k.value.id]) == 1:
-            d = defs[k.value.id][0]
+        elif isinstance(k.value, (ast.Dict, ast.Call)) or (defs is not None and isinstance(k.value, ast.Name) and k.value.id in defs and len(defs[k.value.id]) == 1):
+            d = k.value if isinstance(k.value, (ast.Dict, ast.Call)) else defs[k.value.id][0]
             if isinstance(d, ast.Dict):
                 for kk, vv in zip(d.keys, d.values):
                     if isinstance(kk, ast.Constant) and isinstance(kk.value, str):
@@ -410,4 +410,20 @@ def eval_under(e: ast.AST, defs: dict, assume: str, truth: bool, depth: int = 0)
         return e
     if isinstance(e, ast.Name) and defs and e.id in defs and len(defs[e.id]) == 1 and not isinstance(defs[e.id][0], ast.AugAssign):
         return eval_under(defs[e.id][0], defs, assume, truth, depth + 1)
+    return e
+
+
+def resolve_constant(ctx, f, e: ast.AST, depth: int = 3) -> ast.AST:
+    """Follow a name through single-definition locals and module-level constants (`NAME = <literal>`)."""
+    while depth > 0 and isinstance(e, ast.Name):
+        depth -= 1
+        defs = local_defs(f) if f is not None and f.name != "<module>" else {}
+        if e.id in defs and len(defs[e.id]) == 1 and not isinstance(defs[e.id][0], ast.AugAssign):
+            e = defs[e.id][0]
+            continue
+        g = getattr(f.module, "globals_", {}).get(e.id) if f is not None else None
+        if g is not None and getattr(g, "value", None) is not None:
+            e = g.value
+            continue
+        break
     return e
